@@ -78,6 +78,7 @@ func qeRunInputs(inputs []*qeInput, flags *verifStreamFlags, meta *vMeta, roundt
 	}
 	names := []string{}
 	internals := runModule == "C07.Run" && !roundtrip // also dump the index pre-selection and the grouped stats shape
+	clusterCases := runModule == "C18.RunQ" && !roundtrip
 	var lastDS *qeDataset
 	var lmd *Daemon
 	var cluster *qeCluster
@@ -125,6 +126,9 @@ func qeRunInputs(inputs []*qeInput, flags *verifStreamFlags, meta *vMeta, roundt
 			}
 			if internals {
 				fmt.Fprintf(&sb, "Definition x%d : xcase := mkX c%d None.\n", i, i)
+				names = append(names, fmt.Sprintf("x%d", i))
+			} else if clusterCases {
+				fmt.Fprintf(&sb, "Definition x%d : ccase := mkCC c%d [].\n", i, i)
 				names = append(names, fmt.Sprintf("x%d", i))
 			} else {
 				names = append(names, fmt.Sprintf("c%d", i))
@@ -181,6 +185,13 @@ func qeRunInputs(inputs []*qeInput, flags *verifStreamFlags, meta *vMeta, roundt
 		if internals {
 			fmt.Fprintf(&sb, "Definition x%d : xcase := mkX c%d %s.\n", i, i, qeInternals(lmd, in.DS, text, in.Optimize))
 			names = append(names, fmt.Sprintf("x%d", i))
+		} else if clusterCases {
+			parts := []string{}
+			for _, node := range in.Cluster {
+				parts = append(parts, coqStrList(node))
+			}
+			fmt.Fprintf(&sb, "Definition x%d : ccase := mkCC c%d %s.\n", i, i, coqList(parts))
+			names = append(names, fmt.Sprintf("x%d", i))
 		} else {
 			names = append(names, fmt.Sprintf("c%d", i))
 		}
@@ -198,6 +209,8 @@ func qeRunInputs(inputs []*qeInput, flags *verifStreamFlags, meta *vMeta, roundt
 		sb.WriteString("Definition cases : list rcase := " + coqList(names) + ".\n")
 	} else if internals {
 		sb.WriteString("Definition cases : list xcase := " + coqList(names) + ".\n")
+	} else if clusterCases {
+		sb.WriteString("Definition cases : list ccase := " + coqList(names) + ".\n")
 	} else {
 		sb.WriteString("Definition cases : list qcase := " + coqList(names) + ".\n")
 	}
@@ -320,6 +333,9 @@ func qeMain(args []string) int {
 		// adds the cross-mode comparison of the model's answers and the internal observables
 		// (index pre-selection in store order: the precondition of C06's per-backend cut-off)
 		runModule = "C07.Run"
+	}
+	if prof.cluster {
+		runModule = "C18.RunQ" // adds the comparison with the model of the cluster merge
 	}
 	qeRunInputs(inputs, flags, meta, prof.roundtrip, runModule)
 	meta.write(flags.meta)
